@@ -45,21 +45,39 @@ LabelMatches(lab, e) ==
        [] e.ev \in {"pkgR", "pkgW"} -> lab.name = e.name
        [] OTHER -> lab.name = e.name /\ lab.tag = e.tag
 
+(* fixed variant: Import first looks the package up without registering it, and reads nothing else
+   when it is not there -- a step without a lock of its own and so without an event.  The trace shows it
+   only by the process's next event not being "already".  The look-up may be stale by the time of that
+   event, so the skip is accepted whatever the table holds now (the code re-checks under the write lock
+   in "commit"); this accepts more than the code can do, never less.  *)
+RECURSIVE SkipCands(_, _)
+SkipCands(P, n) ==
+  {P} \cup (IF /\ n > 0 /\ Variant = "fixed" /\ P.stack # <<>>
+                /\ Top(P.stack).pc \in {"already", "recheck"} /\ NPkg(Top(P.stack).f) > 0
+             THEN SkipCands(IF Top(P.stack).pc = "already"
+                            THEN Goto(P, Frame(Top(P.stack).f, "deps", 1))
+                            ELSE FailP(P), n - 1)
+             ELSE {})
+
 Step == /\ Ev.ev \in StepEvents
         /\ Ev.p \in DOMAIN procs
         /\ ~Done(procs[Ev.p])
-        /\ LET r == StepP(tbl, procs[Ev.p])
-           IN /\ LabelMatches(r.lab, Ev)
-              /\ tbl' = r.t
-              /\ procs' = [procs EXCEPT ![Ev.p] = r.p]
+        /\ \E P \in {Q \in SkipCands(procs[Ev.p], 4) : ~Done(Q)} :
+             LET r == StepP(tbl, P)
+             IN /\ LabelMatches(r.lab, Ev)
+                /\ tbl' = r.t
+                /\ procs' = [procs EXCEPT ![Ev.p] = r.p]
         /\ UNCHANGED <<ends, parts>>
 
 End == /\ Ev.ev = "end"
        /\ Ev.p \in DOMAIN procs
-       /\ ends[Ev.p] < Len(procs[Ev.p].res)
-       /\ procs[Ev.p].res[ends[Ev.p] + 1] = [f |-> Ev.f, ok |-> Ev.ok]
+       /\ \E P \in SkipCands(procs[Ev.p], 4) :
+            /\ ends[Ev.p] < Len(P.res)
+            /\ P.res[ends[Ev.p] + 1] = [f |-> Ev.f, ok |-> Ev.ok]
+            /\ (P # procs[Ev.p] => ends[Ev.p] + 1 = Len(P.res))   \* a silent step only for the newest result
+            /\ procs' = [procs EXCEPT ![Ev.p] = P]
        /\ ends' = [ends EXCEPT ![Ev.p] = @ + 1]
-       /\ UNCHANGED <<tbl, procs, parts>>
+       /\ UNCHANGED <<tbl, parts>>
 
 Lookup == /\ Ev.ev = "lookup"
           /\ (Ev.r = "found") <=> (LookupRes(tbl, Ev.name) # "")
